@@ -33,6 +33,27 @@ theorem C02_identifier_and_options_frozen :
     Gen.packObjOrder = ["datetime", "int", "GroupedRecord", "Record", "RecordDescriptor"] := by
   decide
 
+/-- The model's SHA-256 (the one behind `Spec.descriptorHash`) reproduces the standard test vectors - checked by the
+    kernel's own evaluation of the definition: the empty message, "abc", and the two-block message of FIPS 180-4. -/
+theorem C02_sha256_vectors :
+    Sha256.sha256 [] =
+      [0xe3, 0xb0, 0xc4, 0x42, 0x98, 0xfc, 0x1c, 0x14, 0x9a, 0xfb, 0xf4, 0xc8, 0x99, 0x6f, 0xb9, 0x24,
+       0x27, 0xae, 0x41, 0xe4, 0x64, 0x9b, 0x93, 0x4c, 0xa4, 0x95, 0x99, 0x1b, 0x78, 0x52, 0xb8, 0x55] ∧
+    Sha256.sha256 [97, 98, 99] =
+      [0xba, 0x78, 0x16, 0xbf, 0x8f, 0x01, 0xcf, 0xea, 0x41, 0x41, 0x40, 0xde, 0x5d, 0xae, 0x22, 0x23,
+       0xb0, 0x03, 0x61, 0xa3, 0x96, 0x17, 0x7a, 0x9c, 0xb4, 0x10, 0xff, 0x61, 0xf2, 0x00, 0x15, 0xad] ∧
+    Sha256.sha256 "abcdbcdecdefdefgefghfghighijhijkijkljklmklmnlmnomnopnopq".toUTF8.toList =
+      [0x24, 0x8d, 0x6a, 0x61, 0xd2, 0x06, 0x38, 0xb8, 0xe5, 0xc0, 0x26, 0x93, 0x0c, 0x3e, 0x60, 0x39,
+       0xa3, 0x3c, 0xe4, 0x59, 0x64, 0xff, 0x21, 0x67, 0xf6, 0xec, 0xed, 0xd4, 0x19, 0xdb, 0x06, 0xc1] := by
+  decide +kernel
+
+/-- The identifier rule as published, on the descriptor every golden stream starts with: `test/golden`-style names
+    are hashed as `name ++ concat(fieldname ++ fieldtype)`; here the identifier of `t/x [(string, a)]`. -/
+theorem C02_identifier_example :
+    Spec.descriptorHash [116, 47, 120] [([115, 116, 114, 105, 110, 103], [97])] =
+      some (Sha256.hash32 [116, 47, 120, 97, 115, 116, 114, 105, 110, 103]) := by
+  decide +kernel
+
 /-- The header frame the model's writer emits first is the published one: length 15, bin8, 13, "RECORDSTREAM\n". -/
 theorem C02_header_frame : frameBytes magicBody = Spec.headerFrame := by decide
 
